@@ -174,6 +174,11 @@ def run(chk, tier):
     t = H.show(hpt["body"], 9)
     ok = "tag.parse().ok().or_else(" in t and "self.by_name(tag).map(" in t and ".tag()" in t
     chk.expect(ok, "print-parse", "DataDictionary::parse_tag", "keyword-resolution", "tag.parse().ok().or_else(|| self.by_name(tag).map(|e| e.tag()))", t[:160], loc=C.fn_loc(hpt))
+    # the two slices of an intermediate step `KEY[n]`: the key is everything before '[', the index everything between '[' and the final ']'
+    sl = [x for x in H.walk(hs["body"]) if H.kind(x) == "index" and "Range" in H.show(x[3], 3)]
+    got = sorted(re.sub(r"core::ops::range::", "", H.show(x[3], 6)) for x in sl)
+    want_sl = sorted(["Range{start: 0, end: split_i}", "Range{start: (split_i Add 1), end: (part.len() Sub 1)}"])
+    chk.expect(got == want_sl, "print-parse", "parse_selector", "step-slices", want_sl, got, loc=C.fn_loc(hs))
     from . import shared
     shared.keyword_lookup(chk, fx, "keyword-lookup")
     chk.undecided.append("round trip over all tags/selectors; rejection of every other string (the hex-digit and delimiter checks are structural necessary conditions)")
